@@ -42,6 +42,10 @@ def iso6 (x y : 𝕜) : List 𝕜 :=
 def youngOf (K G : 𝕜) : 𝕜 := 9 * K * G / (3 * K + G)
 def nuOf (K G : 𝕜) : 𝕜 := (3 * K - 2 * G) / (2 * (3 * K + G))
 
+/-- bulk / shear modulus from Young modulus and Poisson ratio -/
+def kOf (E ν : 𝕜) : 𝕜 := E / (3 * (1 - 2 * ν))
+def gOf (E ν : 𝕜) : 𝕜 := E / (2 * (1 + ν))
+
 /-- strain localisation factors of a spherical inclusion (Kᵢ, Gᵢ) in a matrix (K₀, G₀) -/
 def sphAk (K0 G0 Ki : 𝕜) : 𝕜 := (K0 + Ks3 G0) / (Ki + Ks3 G0)
 def sphAg (K0 G0 Gi : 𝕜) : 𝕜 := (G0 + H3 K0 G0) / (Gi + H3 K0 G0)
